@@ -184,6 +184,11 @@ def oracle_tierwise(c, r):
             return Failure(dict(sig, clause="shared-span"), f"tier spans {[(t['lo'], t['hi']) for t in res['tiers']]} vs textgrid [{res['lo']},{res['hi']}]")
         if len(r) > 2 and r[2] != ("ok", True):
             return Failure(dict(sig, clause="validate"), f"validate() of the result is {r[2]}")
+        if op == "tg_erase":
+            # the span keeps its start; shrinking cuts out exactly the part of the region inside the span (fix A28)
+            cut = max(0.0, min(c["b"], g["hi"]) - max(c["a"], g["lo"])) if c["shrink"] else 0.0
+            if res["lo"] != g["lo"] or not T.close(res["hi"], g["hi"] - cut):
+                return Failure(dict(sig, clause="span"), f"span [{res['lo']},{res['hi']}] expected [{g['lo']},{g['hi'] - cut}]")
     return None
 
 
